@@ -130,6 +130,10 @@ def rule_inner_dist_table(ctx, m):
                 mapping, _, _ = bind_args(target, False, call)
                 nlook += 1
                 a = mapping.get('inner_dist')
+                if a is not None and a[0] == 'var':
+                    defs = [t.value for t in walk_stmts(f.body) if t.k == 'assign' and t.target == a]
+                    if len(defs) == 1:
+                        a = defs[0]         # a local holding the inner distance
                 ok = a is not None and 'inner_dist' in fmt(a)
                 ctx.check(ok, 'R-TAB', mod.path, q, 'lookup %s selects by inner_dist' % last,
                           'the inner-distance table is consulted with %s instead of the inner distance in effect: point distance and settings transform can '
